@@ -12,6 +12,7 @@ import (
 	"math"
 	"os"
 	"path/filepath"
+	"runtime/debug"
 	"sort"
 	"strconv"
 	"strings"
@@ -126,6 +127,7 @@ type dbx struct {
 	// transaction append through those (possibly outdated) references.
 	refs   map[string]storage.SeriesRef
 	useRef bool
+	thorough bool
 	// soft reports a violation without failing the transition (known-finding classes for which
 	// the model is tolerant, so that exploration continues behind them).
 	soft func(sig, msg string)
@@ -404,7 +406,7 @@ func (x *dbx) Apply(op string, check bool) (fail *vx.Fail) {
 	x.hist = append(x.hist, op)
 	defer func() {
 		if p := recover(); p != nil {
-			fail = vx.Failf("panic/"+strings.SplitN(op, "/", 2)[0], "op %s panicked: %v", op, p)
+			fail = vx.Failf("panic/"+strings.SplitN(op, "/", 2)[0], "op %s panicked: %v\n%s", op, p, debug.Stack())
 		}
 	}()
 	if x.extraApply != nil {
